@@ -201,16 +201,17 @@ CHECKS["C03"] = {
 }
 
 CHECKS["C20"] = {
-    "pkg": "./c20", "run": "^TestC20$", "level": "fault_enumeration",
+    "pkg": "./c20", "run": "^TestC20", "level": "fault_enumeration",
+    "aux": [{"pkg": "github.com/marekgalovic/anndb/cmd/anndb", "name": "anndb", "env": "VERIF_ANNDB_BIN", "tags": "verif"}],
     "mem_gb": {"quick": 0, "thorough": 0},
     "technique": "runtime monitor on an in-process cluster of real servers (real gRPC raft transport): address-book equality on every live member after a logical marker, after joins (sequential and concurrent), removals, forced compaction of the membership log and restart of any member; a removed node re-joining (through a lagging member; under its old id followed by a later join and a member's restart); a removal while another member is down, with and without compaction",
-    "level_text": "Monitor on real clusters of 2..5 nodes: after every acknowledged join / removal a marker catalogue entry is proposed and, once every live member has applied it, each member's Conn.Nodes() must equal the acknowledged membership with the announced addresses; the same after restarting a member (bootstrap node or joiner), with and without the zero group's log having been compacted into a snapshot first. A fourth extra family (3 quick / 24 thorough): node 2 holds node 4's committed join unapplied while node 3, which has applied it, restarts or repeats its join handshake through node 2. A member that has applied the membership log up to the commit index at which every change had been acknowledged and still lists something else is a violation whether or not its log still moves.",
+    "level_text": "Monitor on real clusters of 2..5 nodes: after every acknowledged join / removal a marker catalogue entry is proposed and, once every live member has applied it, each member's Conn.Nodes() must equal the acknowledged membership with the announced addresses; the same after restarting a member (bootstrap node or joiner), with and without the zero group's log having been compacted into a snapshot first. A fourth extra family (3 quick / 24 thorough): node 2 holds node 4's committed join unapplied while node 3, which has applied it, restarts or repeats its join handshake through node 2. A member that has applied the membership log up to the commit index at which every change had been acknowledged and still lists something else is a violation whether or not its log still moves. Real-process part (16 quick / 200 thorough cases): four real cmd/anndb servers; while node 4 is removed (even cases) or joins (odd cases) a founding member is killed with SIGKILL at the k-th hit of a ready-loop point of the membership group and restarted (same command line or -join false); once a catalogue marker created afterwards is listed by every member, every member's address book (read through the state dump) must be the acknowledged membership with the announced addresses, or - when the change's outcome is unknown - the same on every member.",
     "level_note": "Fault sequences are a fixed seeded family (sequential vs concurrent joins x removal x compaction x which member restarts), not message-level faults; quiescence is logical (marker applied), the wall-clock watchdog only yields inconclusive.",
     "shards": {"quick": 8, "thorough": 16},
     "timeout": {"quick": 900, "thorough": 3400},
     "rule": "case c = (nodes 2..5, concurrent joins?, removal?, compaction before restart?, restarted member); non-trivial = all phases ran to the final comparison; distinct = digest of the case description. Three more families of 3 (quick) / 24 (thorough) cases each: re-join through a member that holds the removal unapplied; removal + shutdown + re-join under the old id, then node 4 joins and a member that stayed restarts (datasets with 3 replicas exist, so partition groups log the removal too); removal of a node while another member is down, [compaction], the member returns. In the last two a view that does not converge is a violation only if the lagging member's membership log has not moved during a second 20 s window",
     "assumptions": ["a marker entry applied on a member implies every earlier membership entry was applied there (single log order)"],
-    "min": {"any": {"rejoin_through_member_behind_on_a_join_histories": 1, "books_checked": 20, "rejoin_then_later_join_histories": 1, "removal_while_member_down_histories": 1}},
+    "min": {"any": {"proc_crashes": 4, "rejoin_through_member_behind_on_a_join_histories": 1, "books_checked": 20, "rejoin_then_later_join_histories": 1, "removal_while_member_down_histories": 1}},
 }
 
 CHECKS["C14"] = {
